@@ -4,7 +4,7 @@
 use proptest::strategy::{Strategy, ValueTree};
 use proptest::test_runner::{Config, RngAlgorithm, TestCaseError, TestError, TestRng, TestRunner};
 use serde_json::{json, Value};
-use std::collections::{BTreeMap, HashSet};
+use std::collections::{BTreeMap, HashMap, HashSet};
 use std::hash::{Hash, Hasher};
 use std::sync::Mutex;
 
@@ -263,6 +263,7 @@ where
     J: Fn(&S::Value) -> Verdict,
     K: Fn(&S::Value) -> Value,
 {
+    let cases = scaled(cases);
     let mut runner = mk_runner(seed, id, shard, cases);
     let failed = std::cell::Cell::new(false);
     let stats_cell = std::cell::RefCell::new(std::mem::take(stats));
@@ -423,7 +424,11 @@ pub fn now_secs() -> u64 {
 pub fn write_replay(id: &str, f: &Failure) -> String {
     let dir = format!("{}/replays", verif_dir());
     let _ = std::fs::create_dir_all(&dir);
-    let body = json!({"property": id, "case": f.case, "message": f.msg, "profile": profile()});
+    let mut body = json!({"property": id, "case": f.case, "message": f.msg, "profile": profile()});
+    if let Some(e) = current_environment() {
+        body["environment"] = e;
+        body["failed_at_second"] = json!(now_secs());
+    }
     let text = serde_json::to_string_pretty(&body).unwrap();
     let path = format!("{dir}/{id}-{:016x}.json", stable_hash(&serde_json::to_string(&f.case).unwrap()));
     let _ = std::fs::write(&path, text);
@@ -448,7 +453,7 @@ pub fn stats_to_json(st: &Stats) -> Value {
 }
 
 /// Finish a check: print findings / violations, write evidence, return exit code.
-pub fn finish(ctx: &Ctx, rep: Report, wall_s: f64, other: Option<(i32, Option<Value>)>) -> i32 {
+pub fn finish(ctx: &Ctx, rep: Report, wall_s: f64, other: Option<(i32, Option<Value>)>, envs: Vec<(String, i32, Option<Value>)>) -> i32 {
     let st = &rep.stats;
     let findings = Findings::load();
     let mut exit = 0;
@@ -537,6 +542,38 @@ pub fn finish(ctx: &Ctx, rep: Report, wall_s: f64, other: Option<(i32, Option<Va
         coverage.insert("evaluations".into(), json!(evaluations_total));
         coverage.insert("evaluations_this_profile".into(), json!(st.evaluations));
     }
+    if !envs.is_empty() {
+        // the same check in perturbed environments (child processes)
+        let mut list = vec![];
+        for (name, code, part) in &envs {
+            match part {
+                Some(p) => {
+                    evaluations_total += p["coverage"]["evaluations"].as_u64().unwrap_or(0);
+                    violations_total += p["violations"].as_u64().unwrap_or(0);
+                    list.push(json!({"environment": name, "exit": code, "seed": p["seed"], "evaluations": p["coverage"]["evaluations"], "distinct_nontrivial": p["coverage"]["distinct_nontrivial"],
+                        "violations": p["violations"], "known_findings_excluded": p["coverage"]["known_findings_excluded"], "wall_s": p["wall_s"]}));
+                }
+                None => list.push(json!({"environment": name, "exit": code, "result": "no result file"})),
+            }
+            match *code {
+                0 => {}
+                1 => {
+                    if exit == 0 {
+                        exit = 1
+                    }
+                }
+                _ => {
+                    println!("INFRA property={} the environment run [{}] exited with status {}", ctx.id, name, code);
+                    if exit == 0 {
+                        exit = 2
+                    }
+                }
+            }
+        }
+        coverage.insert("environment_runs".into(), json!(list));
+        coverage.insert("evaluations".into(), json!(evaluations_total));
+        coverage.insert("evaluations_normal_environment".into(), json!(st.evaluations));
+    }
     let ev = json!({
         "property_id": ctx.id,
         "tier": ctx.tier.name(),
@@ -597,12 +634,202 @@ pub fn lookalike_string(s: &str, k: usize) -> String {
     s.chars().map(|c| lookalikes(c).get(k).copied().unwrap_or(c)).collect()
 }
 
+/// Different strings of equal length that a *truncated fingerprint* cannot tell apart: pairs whose
+/// std `DefaultHasher` (fixed keys) values agree in the low 32 bits, for each usual way of feeding
+/// a string (and a flag) to a hasher, found by a birthday search over `stem` + 7 digits + `tail`;
+/// plus pairs that weak hand-made fingerprints confuse (same length and byte sum / xor, same ends).
+/// A memo or registry keyed on such a fingerprint instead of on the string itself confuses them.
+pub fn fingerprint_twins(stem: &str, tail: &str) -> Vec<(String, String)> {
+    let mut out: Vec<(String, String)> = vec![];
+    let n = 700_000u32;
+    for conv in 0..6u8 {
+        let mut seen: HashMap<u32, u32> = HashMap::with_capacity(n as usize);
+        let mut found = 0;
+        for i in 0..n {
+            let s = format!("{stem}{i:07}{tail}");
+            #[allow(deprecated)]
+            let mut h = std::collections::hash_map::DefaultHasher::new();
+            match conv {
+                0 => h.write(s.as_bytes()),
+                1 => s.hash(&mut h),
+                2 => (s.as_str(), false).hash(&mut h),
+                3 => (s.as_str(), true).hash(&mut h),
+                4 => (false, s.as_str()).hash(&mut h),
+                _ => (true, s.as_str()).hash(&mut h),
+            }
+            let k = h.finish() as u32;
+            if let Some(j) = seen.insert(k, i) {
+                out.push((format!("{stem}{j:07}{tail}"), s));
+                found += 1;
+                if found >= 6 {
+                    break;
+                }
+            }
+        }
+    }
+    // weak fingerprints: permutations (same length, sum, xor, multiset), same first and last characters
+    out.push((format!("{stem}0000012{tail}"), format!("{stem}0000021{tail}")));
+    out.push((format!("{stem}0001000{tail}"), format!("{stem}0000100{tail}")));
+    out.push((format!("{stem}ab{tail}"), format!("{stem}ba{tail}")));
+    out.push((format!("{stem}0000013{tail}"), format!("{stem}0000022{tail}")));
+    out
+}
+
 /// Monotone index mapping for shrinking-friendly choices.
 pub fn pick(i: u16, len: usize) -> usize {
     if len == 0 {
         return 0;
     }
     ((i as usize) * len) >> 16
+}
+
+// ---------------------------------------------------------------------------
+// environment runs: the same check again, in a child process whose environment is perturbed
+// (moved and fast-running wall clock, time zone, locale, every variable the sources name)
+
+/// Case counts of generated parts are multiplied by FFV_SCALE in environment runs.
+pub fn scale_factor() -> f64 {
+    std::env::var("FFV_SCALE").ok().and_then(|v| v.parse::<f64>().ok()).filter(|f| *f > 0.0 && *f <= 1.0).unwrap_or(1.0)
+}
+pub fn scaled(n: u32) -> u32 {
+    ((n as f64 * scale_factor()) as u32).max(1)
+}
+pub fn scaled_usize(n: usize) -> usize {
+    ((n as f64 * scale_factor()) as usize).max(1)
+}
+
+#[derive(Debug, Clone)]
+pub struct EnvSpec {
+    pub name: String,
+    pub vars: Vec<(String, String)>,
+    /// wall clock: (start second, nanoseconds added per reading); needs the preload shim
+    pub clock: Option<(u64, u64)>,
+    pub scale: f64,
+}
+
+/// Names in the sources under test that look like environment variables.
+pub fn env_like_names() -> Vec<String> {
+    let mut v: Vec<String> = crate::dict::tokens()
+        .into_iter()
+        .filter(|t| t.len() >= 3 && t.len() <= 40 && t.chars().next().map(|c| c.is_ascii_uppercase()).unwrap_or(false) && t.chars().all(|c| c.is_ascii_uppercase() || c.is_ascii_digit() || c == '_'))
+        .filter(|t| !t.starts_with("FFV_") && !t.starts_with("CARGO") && t != "PATH" && t != "LD_PRELOAD" && t != "LD_LIBRARY_PATH")
+        .collect();
+    v.sort();
+    v.dedup();
+    v
+}
+
+pub fn environments(tier: Tier) -> Vec<EnvSpec> {
+    let named = |val: &str| -> Vec<(String, String)> { env_like_names().into_iter().map(|n| (n, val.to_string())).collect() };
+    let common = |tz: &str, loc: &str| -> Vec<(String, String)> {
+        vec![("TZ".into(), tz.into()), ("LANG".into(), loc.into()), ("LC_ALL".into(), loc.into()), ("RUST_LOG".into(), "trace".into()), ("COLUMNS".into(), "1".into()), ("NO_COLOR".into(), "1".into())]
+    };
+    let mut e1 = common("Pacific/Kiritimati", "tr_TR.UTF-8");
+    e1.extend(named("1"));
+    // 90 s before 2100-01-01T00:00:00Z: the run crosses minute, hour, day, month and year ends, beyond 2^31 s
+    let mut all = vec![EnvSpec { name: "year-end-2099 clock (2 ms per reading), UTC+14, tr_TR, named variables = 1".into(), vars: e1, clock: Some((4_102_444_800 - 90, 2_000_000)), scale: 0.25 }];
+    if tier == Tier::Thorough {
+        let mut e2 = common("America/St_Johns", "C");
+        e2.extend(named(""));
+        // 60 s before 2^32 s (year 2106)
+        all.push(EnvSpec { name: "clock crossing 2^32 s (5 ms per reading), UTC-3:30, C locale, named variables empty".into(), vars: e2, clock: Some(((1u64 << 32) - 60, 5_000_000)), scale: 0.25 });
+        let mut e3 = common("UTC", "ja_JP.UTF-8");
+        e3.extend(named("0"));
+        // a Sunday midnight UTC that is also a multiple of 86400*7: 1970-01-04 was a Sunday -> 3 days + k weeks
+        let week = 7 * 86_400u64;
+        let start = 3 * 86_400 + 2_900 * week; // some Sunday in 2025
+        e3.push(("HOME".into(), "/nonexistent".into()));
+        all.push(EnvSpec { name: "clock 30 s before a week boundary (50 ms per reading), UTC, ja_JP, named variables = 0, no home".into(), vars: e3, clock: Some((start - 30, 50_000_000)), scale: 0.25 });
+        let mut e4 = common("Asia/Kathmandu", "en_US.UTF-8");
+        e4.extend(named("yes"));
+        all.push(EnvSpec { name: "real clock, UTC+5:45, named variables = yes".into(), vars: e4, clock: None, scale: 0.25 });
+    }
+    all
+}
+
+/// The environment this process was started in by `run_environments` (None for a normal run).
+pub fn current_environment() -> Option<Value> {
+    std::env::var("FFV_ENV_JSON").ok().and_then(|t| serde_json::from_str(&t).ok())
+}
+
+fn apply_env(cmd: &mut std::process::Command, name: &str, vars: &[(String, String)], clock: Option<(u64, u64)>, scale: f64) -> Result<(), String> {
+    for (k, v) in vars {
+        cmd.env(k, v);
+    }
+    if let Some((base, step)) = clock {
+        let shim = std::env::var("FFV_FAKECLOCK").map_err(|_| "no clock shim (FFV_FAKECLOCK unset)".to_string())?;
+        if !std::path::Path::new(&shim).exists() {
+            return Err(format!("clock shim {shim} missing"));
+        }
+        cmd.env("LD_PRELOAD", shim).env("FFV_CLOCK_BASE", base.to_string()).env("FFV_CLOCK_STEP_NS", step.to_string());
+    }
+    cmd.env("FFV_SCALE", scale.to_string());
+    cmd.env("FFV_ENV_JSON", json!({"name": name, "vars": vars, "clock": clock.map(|(b, s)| json!({"base": b, "step_ns": s})), "scale": scale}).to_string());
+    Ok(())
+}
+
+/// Run this very check again under each perturbed environment (children write a part file and
+/// print their own VIOLATION lines). Returns (environment name, exit code, part).
+pub fn run_environments(ctx: &Ctx) -> Vec<(String, i32, Option<Value>)> {
+    if ctx.part.is_some() || current_environment().is_some() || std::env::var("FFV_NO_ENV_RUNS").is_ok() {
+        return vec![];
+    }
+    let exe = match std::env::current_exe() {
+        Ok(e) => e,
+        Err(_) => return vec![],
+    };
+    let scratch = std::env::var("FFV_SCRATCH").unwrap_or_else(|_| format!("{}/harness/target/scratch", verif_dir()));
+    let _ = std::fs::create_dir_all(&scratch);
+    let mut out = vec![];
+    for (k, e) in environments(ctx.tier).into_iter().enumerate() {
+        let part = format!("{scratch}/env-{}-{}-{k}.json", ctx.id, std::process::id());
+        let _ = std::fs::remove_file(&part);
+        let seed = ctx.seed ^ stable_hash(&(e.name.as_str(), 0xE17u64));
+        let mut cmd = std::process::Command::new(&exe);
+        cmd.args(["check", &ctx.id, "--tier", ctx.tier.name(), "--seed", &seed.to_string(), "--part", &part]);
+        if let Err(why) = apply_env(&mut cmd, &e.name, &e.vars, e.clock, e.scale) {
+            out.push((format!("{} (not run: {why})", e.name), 0, None));
+            continue;
+        }
+        let code = match cmd.status() {
+            Ok(s) => s.code().unwrap_or(2),
+            Err(err) => {
+                println!("INFRA cannot start the environment run: {err}");
+                2
+            }
+        };
+        let v = std::fs::read_to_string(&part).ok().and_then(|t| serde_json::from_str(&t).ok());
+        let _ = std::fs::remove_file(&part);
+        out.push((e.name, code, v));
+    }
+    out
+}
+
+/// A replay file written by an environment run is replayed in that environment: re-executes
+/// this process with it unless already there. Returns the child's exit code when it did.
+pub fn replay_in_recorded_environment(file: &str) -> Option<i32> {
+    if current_environment().is_some() {
+        return None;
+    }
+    let v: Value = serde_json::from_str(&std::fs::read_to_string(file).ok()?).ok()?;
+    let env = v.get("environment")?;
+    if env.is_null() {
+        return None;
+    }
+    let vars: Vec<(String, String)> = env["vars"].as_array().map(|a| a.iter().filter_map(|p| Some((p[0].as_str()?.to_string(), p[1].as_str()?.to_string()))).collect()).unwrap_or_default();
+    // the clock restarts at the second the failure was seen in
+    let clock = match (v["failed_at_second"].as_u64(), env["clock"]["step_ns"].as_u64(), env["clock"]["base"].as_u64()) {
+        (Some(t), Some(s), _) => Some((t.saturating_sub(1), s)),
+        (None, Some(s), Some(b)) => Some((b, s)),
+        _ => None,
+    };
+    let mut cmd = std::process::Command::new(std::env::current_exe().ok()?);
+    cmd.args(std::env::args().skip(1));
+    if let Err(why) = apply_env(&mut cmd, env["name"].as_str().unwrap_or("recorded"), &vars, clock, 1.0) {
+        println!("INFRA cannot re-create the recorded environment: {why}");
+        return Some(2);
+    }
+    Some(cmd.status().ok().and_then(|s| s.code()).unwrap_or(2))
 }
 
 /// Checks that quantify over build configurations run in both profiles: the
